@@ -35,7 +35,7 @@ func (c *c20Case) Key() string {
 	return c.Part + "|" + c.Src + "|" + strings.Join(c.Over, ",") + fmt.Sprint(c.Site)
 }
 
-var c20Inline = []string{"w", " ", "*", "**", "_", "`code`", `[t](u "ti")`, "![a](s)", "<http://x.y>", "<b>", "&amp;", "&copy;", "<", "&", `\*`, `\<`, "{{ x }}", "  \n", "~~", "a < b", "\n", "`a\nb`", "`x\\|y`", `[e](u\_x "t\*")`, `[q](http://a.b/?x=1&amp;y=2 "a &amp; b")`, "![a *b* <c> &amp;](s)", "<!-- c -->", "www.ex.org/p", "https://pl.ex.net/y?a=1&b=2", "<dev@ex.com>", "me@ex.org", "![a `c\\*d` &amp;](s)", "[l `c\\*d`](u)", "&nbsp;", "[f](false)", "[m](a{{x}}b \"t{{ x }}\")", `[t](u "false")`, `![i](s "0")`, "![two\nlines](s)", "![foo ![bar](/u)](/v)", "[![*a* ![b](c) `d`](e)](f)", "![<http://a.b> c](x)", "![l [k](u) m](s)"}
+var c20Inline = []string{"w", " ", "*", "**", "_", "`code`", `[t](u "ti")`, "![a](s)", "<http://x.y>", "<b>", "&amp;", "&copy;", "<", "&", `\*`, `\<`, "{{ x }}", "  \n", "~~", "a < b", "\n", "`a\nb`", "`x\\|y`", `[e](u\_x "t\*")`, `[q](http://a.b/?x=1&amp;y=2 "a &amp; b")`, "![a *b* <c> &amp;](s)", "<!-- c -->", "www.ex.org/p", "https://pl.ex.net/y?a=1&b=2", "<dev@ex.com>", "me@ex.org", "![a `c\\*d` &amp;](s)", "[l `c\\*d`](u)", "&nbsp;", "[f](false)", "[m](a{{x}}b \"t{{ x }}\")", `[t](u "false")`, `![i](s "0")`, "![two\nlines](s)", "![foo ![bar](/u)](/v)", "[![*a* ![b](c) `d`](e)](f)", "![<http://a.b> c](x)", "![l [k](u) m](s)", `\&`, "ouml;", "&#38;", "&#0065;", "&#x22;", "amp;"}
 
 var c20Ref = goldmark.New(goldmark.WithExtensions(extension.GFM), goldmark.WithRendererOptions(ghtml.WithUnsafe()))
 
